@@ -10,6 +10,7 @@ from .engine import (Program, Engine, Int, Agg, EnumV, Ref, Cell, Bytes, VecV, O
                      Inconclusive, int_binop, bz3, deep_copy)
 from . import models as M
 from . import merkle as MK      # registers the rs_merkle models
+from . import models_std2       # noqa: F401  registers further std models
 
 VERIF = os.path.dirname(os.path.dirname(os.path.abspath(__file__)))
 WORK = os.path.join(VERIF, ".work")
@@ -28,6 +29,8 @@ CRATES = {
     "sos_backend": ("sos-backend", "crates/backend"),
     "sos_server_storage": ("sos-server-storage", "crates/storage/server"),
     "sos_sync": ("sos-sync", "crates/sync"),
+    "sos_integrity": ("sos-integrity", "crates/integrity", "files"),
+    "sos_database": ("sos-database", "crates/database", "files"),
 }
 
 
@@ -133,7 +136,11 @@ def cross_check(solver, result, what=""):
         return True
     CROSS.setdefault("seen", 0)
     CROSS["seen"] += 1
-    if CROSS["seen"] % n != 0:
+    try:
+        off = int(os.environ.get("VERIF_SEED", "0"))
+    except ValueError:
+        off = 0
+    if (CROSS["seen"] + off) % n != 0:      # VERIF_SEED shifts which queries get the second opinion
         return True
     import tempfile
     text = solver.to_smt2()
